@@ -99,6 +99,7 @@ type FuncGen struct {
 	heapQueue [][2]string
 	undecided []Undecided
 	siteUsed  map[*SiteAssert]bool
+	linear    bool // G_pend: the AST nodes produced so far in this activation that are not yet part of another node
 }
 
 type iterInfo struct {
@@ -278,6 +279,10 @@ func (g *Gen) GenFunc(fn *ssa.Function) (*FuncGen, error) {
 		}
 	}
 	fg.st = State{}
+	if fg.c != nil && fg.c.Linear {
+		fg.linear = true
+		g.Family("G_pend", "(Array Int Bool)")
+	}
 	fg.collectDebugRefs()
 	fg.findLoops()
 	fg.findLogCalls()
@@ -912,6 +917,9 @@ func (fg *FuncGen) block(b *ssa.BasicBlock) {
 		fg.reach[b] = rname
 		fg.curReach = rname
 		fg.st = State{}
+		if fg.linear {
+			fg.setFam("G_pend", "((as const (Array Int Bool)) false)")
+		}
 	} else {
 		var parts []string
 		for _, p := range fwd {
@@ -1722,4 +1730,23 @@ func (fg *FuncGen) clauseFailed(c *Clause) bool {
 	fg.undecided = append(fg.undecided, Undecided{Func: fg.key, Pos: c.Pos, Text: c.Text, Reason: fg.err.Error(), Tags: tags})
 	fg.err = nil
 	return true
+}
+
+// ---------------------------------------------------------------------------
+// linear use of AST nodes (contract flag `linear`): G_pend holds the nodes that were returned by a
+// sub-parser or allocated in this activation and have not yet been stored into another node, passed on to
+// a callee or returned.  At a successful return nothing may be left: a parsed sub-expression that is not
+// part of the result has been dropped silently.
+
+func isNodeType(t types.Type) bool {
+	nt, ok := types.Unalias(t).(*types.Named)
+	return ok && nt.Obj().Name() == "Node" && nt.Obj().Pkg() != nil && strings.HasSuffix(nt.Obj().Pkg().Path(), "/internal/parser")
+}
+
+func (fg *FuncGen) pendSet(t TTerm, val bool) {
+	if !fg.linear || t.Sort != "Iface" {
+		return
+	}
+	cur := fg.famIn(fg.st, "G_pend")
+	fg.setFam("G_pend", fmt.Sprintf("(ite (= (itype %s) 0) %s (store %s (iref %s) %v))", t.S, cur, cur, t.S, val))
 }
